@@ -241,7 +241,16 @@ def ring_workout(chk, maxlen):
     for cap in (3, 4, 9):
         for prefix in range(0, 6):
             items.append(jdn({Kw("cap"): cap, Kw("prefix"): prefix, Kw("len"): maxlen}))
-    res = run_batch("asan", drv, items, chunk=1, timeout=600)
+    # a canary first: an implementation whose give blocks below capacity would hang every item
+    canary = jdn({Kw("cap"): 3, Kw("prefix"): 1, Kw("len"): 6})
+    (st0, text0), = run_batch("fast", drv, [canary], chunk=1, timeout=20)
+    if st0 != "OK" or canonparse.parse(text0)[1] is not None:
+        chk.violation("ring:%s" % ("fifo-order" if st0 == "OK" else st0.lower()),
+                      "ring workout canary %s: %s %s" % (canary, st0, text0[:300]),
+                      "# (def c (ev/chan 3)) then give/take sequences from one fiber: see props/C06/driver_ring.janet\n")
+        chk.part("ring-workout", skipped_after_canary=1)
+        return
+    res = run_batch("asan", drv, items, chunk=1, timeout=300)
     total = 0
     for it, (st, text) in zip(items, res):
         if st != "OK":
